@@ -225,7 +225,7 @@ def search(seed, n):
 
 def entry(seed, tier, broken):
     """entry point for tools/check.py (props.py: search=("search.validity", "entry"))"""
-    return search(seed, 40000 if (tier == "thorough" or broken) else 1500)
+    return search(seed, 40000 if (tier == "thorough" or broken) else (9000 if tier == "escalated" else 1500))
 
 
 def replay(rep):
